@@ -199,7 +199,31 @@ func (h *hist) mutate(blob int, kinds []string, n int) int {
 
 func (h *hist) verifyTok(t int, key int) {
 	az := h.az[h.r.Intn(len(h.az))]
-	h.add(vm.Op{K: "verify", A: t, KS: &vm.KeySel{Key: key}, Az: &az, Lim: &vm.Lim{MaxDurNs: 1e9}})
+	ks := &vm.KeySel{Key: key}
+	if h.r.Intn(4) == 0 {
+		// the verifier holds a key source instead of one key: the issuer's key under the id its
+		// builders were given (or as the default when they were given none), other keys elsewhere
+		ks = &vm.KeySel{UseMap: true}
+		other := h.pick(h.issuers)
+		if id := h.ids[key]; id != nil {
+			ks.Map = append(ks.Map, vm.KeyEntry{ID: *id, Key: key})
+			if h.r.Intn(2) == 0 {
+				ks.Def = other
+			}
+			if h.r.Intn(2) == 0 && *id != 0 {
+				ks.Map = append(ks.Map, vm.KeyEntry{ID: 0, Key: other})
+			}
+		} else {
+			ks.Def = key
+			if h.r.Intn(2) == 0 {
+				ks.Map = append(ks.Map, vm.KeyEntry{ID: 0, Key: other})
+			}
+			if h.r.Intn(3) == 0 {
+				ks.Map = append(ks.Map, vm.KeyEntry{ID: uint32(1 + h.r.Intn(3)), Key: other})
+			}
+		}
+	}
+	h.add(vm.Op{K: "verify", A: t, KS: ks, Az: &az, Lim: &vm.Lim{MaxDurNs: 1e9}})
 }
 
 // ---- C01
